@@ -74,7 +74,9 @@ func zzComposedObject(metaName, resName string, owner int, foreignUID string) *c
 	case zzOwnOurs:
 		cd.SetOwnerReferences([]metav1.OwnerReference{{APIVersion: "example.org/v1", Kind: "XR", Name: zzXRName, UID: zzXRUIDc, Controller: ptr.To(true), BlockOwnerDeletion: ptr.To(true)}})
 	case zzOwnForeign:
-		cd.SetOwnerReferences([]metav1.OwnerReference{{APIVersion: "example.org/v1", Kind: "Other", Name: "other", UID: types.UID(foreignUID), Controller: ptr.To(true)}})
+		// the foreign owner's UID differs from the XR's; its name is arbitrary
+		// (two owners of different kinds may well share a name)
+		cd.SetOwnerReferences([]metav1.OwnerReference{{APIVersion: "example.org/v1", Kind: "Other", Name: zz.Str("foreign.owner.name"), UID: types.UID(foreignUID), Controller: ptr.To(true)}})
 	}
 	cd.Object["spec"] = map[string]any{"field": "old"}
 	return cd
@@ -213,6 +215,8 @@ type zzStep struct {
 	// reqNames[k] is the name the step's k-th call asks an extra resource
 	// for (by name); after the list is exhausted the last one is repeated.
 	reqNames []string
+	// reqKeys[k] is the requirement name (map key) used in round k; defaults to "extra"
+	reqKeys []string
 	// context value the step writes
 	ctxValue string
 	// explicit metadata.name the function gives desired resource i ("" = none)
@@ -310,8 +314,15 @@ func (r *zzRunner) RunFunction(_ context.Context, name string, req *fnv1.RunFunc
 		if k < len(st.reqNames) {
 			n = st.reqNames[k]
 		}
+		key := "extra"
+		if len(st.reqKeys) > 0 {
+			key = st.reqKeys[len(st.reqKeys)-1]
+			if k < len(st.reqKeys) {
+				key = st.reqKeys[k]
+			}
+		}
 		rsp.Requirements = &fnv1.Requirements{ExtraResources: map[string]*fnv1.ResourceSelector{
-			"extra": {ApiVersion: "example.org/v1", Kind: "Extra", Match: &fnv1.ResourceSelector_MatchName{MatchName: n}},
+			key: {ApiVersion: "example.org/v1", Kind: "Extra", Match: &fnv1.ResourceSelector_MatchName{MatchName: n}},
 		}}
 	}
 	if st.fatal {
